@@ -6,7 +6,7 @@ CONSTANTS
   ChargeVals <- Q11
   ChargeRows <- NoCharge
   Scales <- S1e4
-  Modes <- M_All
+  Modes <- M_TF
   DuplModes <- D_None
   PosBoxB = 8
   CertBoxY = 3
